@@ -93,4 +93,6 @@ def _tau_job(parity: int) -> Callable[[], Record]:
 
 
 for _p in (0, 1):
-    register(Job(f"c07:tau_rule[parity={_p}]", ["C07"], CF + "transformer_residual_scaling_rule", {"index_parity": _p}, _tau_job(_p)))
+    # C08: TransformerStack / TransformerDecoder use ONE rule object (a default argument) for every model
+    # built in the process -- their delegation to the functional form depends on the rule being pure
+    register(Job(f"c07:tau_rule[parity={_p}]", ["C07", "C08"], CF + "transformer_residual_scaling_rule", {"index_parity": _p}, _tau_job(_p), shared=True))
